@@ -19,6 +19,42 @@ CHECKS = {
         "Operation arguments are functions of the current state (needed for sound pruning); dtype zoo int/float/bool/M8[s]; numpy trusted.",
         "DESIGN.md §2 C05",
     ),
+    "C13": (
+        "model_checking",
+        "exhaustive lattice enumeration of the real TimeKeeper/normalize_period against integer-second arithmetic and a reference grammar",
+        "Every (start, duration, dt, direction, reference) on a one-second lattice: Nsteps, step<->time conversions at every step incl. negative, "
+        "the running clock after every update(), CF values/units; every spelling of each duration in a bounded set and every string over an "
+        "11-letter alphabet up to length 4/5 decided by a hand-written grammar. Exhaustive on the lattice, silent off it.",
+        "numpy datetime64 arithmetic trusted; times on a one-second lattice.",
+        "DESIGN.md §2 C13",
+    ),
+    "C07": (
+        "model_checking",
+        "exhaustive configuration lattice (Nsteps x period x numrec x layout x direction x ...) through the real main(), schedule oracle + split-vs-unsplit differential",
+        "Every (Nsteps<=9/13, period, numrec, layout, particle variables, direction, file-name prototype, duration exact or not) is a complete run of "
+        "main(); record times, file names, records per file, readability and the concatenation differential are compared with integer arithmetic.",
+        "Analytic grid/forcing plug-ins (the property does not anchor ROMS); output period a multiple of dt.",
+        "DESIGN.md §2 C07",
+    ),
+    "C06": (
+        "model_checking",
+        "exhaustive enumeration of release/death histories through the assembled Model; state snapshots vs records read by a documented-format reader",
+        "Every history of releases {0,1,2} and deaths {none, lowest, highest, all} per record interval up to 3/4 records, both layouts, periods 1-2, "
+        "particle variables / reference time / numrec round-robin (full cross in thorough up to 3 records): each record equals the snapshot taken "
+        "right after forcing.update(), counts sum to the instance dimension, time coordinate and units decode to the model time, particle variables "
+        "cover every particle released so far, dense fill before release / after death.",
+        "Analytic grid/forcing plug-ins; NETCDF4 only.",
+        "DESIGN.md §2 C06",
+    ),
+    "C04": (
+        "model_checking",
+        "exhaustive enumeration of release tables up to 3 rows x modes on the real ParticleReleaser/State/TimeKeeper against a reference schedule",
+        "Every table with <=2 (3 in slices/thorough) rows, times any multiset of step slots -1..Nsteps+1, mult 0-2, X/Y or lon/lat, header or names, "
+        "with/without mult column, discrete / continuous (f=1,2 steps), forward/reversed: after every update() the new particles (count, order, "
+        "position, int/float/time extra columns) equal the reference schedule.",
+        "Times on the step (and tick) grid as the quantifier demands; affine fake grid for ll2xy; pandas trusted for parsing.",
+        "DESIGN.md §2 C04",
+    ),
 }
 
 PENDING_REASON = "check not built yet (work in progress, see DESIGN.md §11 build order)"
